@@ -50,6 +50,12 @@ func genC20(seed uint64, tier string) *Plan {
 	// query that is compared between cluster and standalone)
 	t0 := p.Tables[0].Name
 	battery = append(battery, "SELECT 60 * 60 AS k0, _points FROM "+t0+" GROUP BY da", "SELECT _points, (2 + 3) * 4 AS k1 FROM "+t0+" GROUP BY _")
+	// SHIFT with offsets of either sign (whole periods of the table)
+	fn := fieldNames(&p.Tables[0])
+	res0 := time.Duration(p.Tables[0].ResNanos)
+	battery = append(battery,
+		fmt.Sprintf("SELECT SHIFT(%s, '%s') AS s1, %s FROM %s GROUP BY da", PickOne(r, fn), durSQL(res0*time.Duration(r.Range(1, 3))), PickOne(r, fn), t0),
+		fmt.Sprintf("SELECT SHIFT(%s, '-%s') AS s2, _points FROM %s GROUP BY _", PickOne(r, fn), durSQL(res0*time.Duration(r.Range(1, 3))), t0))
 	p.Ops = append(p.Ops, Op{K: "check", Strs: battery})
 	return p
 }
